@@ -146,7 +146,16 @@ public:
 	}
 
 private:
-	void _ensure_capacity(size_t capacity);
+	void _ensure_capacity(size_t capacity) {
+		_ensure_capacity(capacity, [] (T *) { });
+	}
+
+	// Makes room for capacity elements and calls construct(array) on the array that holds
+	// the elements afterwards. If the elements have to move, construct() runs on the new array
+	// before they are moved out and the old array is freed: what construct() reads may
+	// still refer to an element of this vector (as in v.push(v[0])).
+	template<typename F>
+	void _ensure_capacity(size_t capacity, F construct);
 
 	Allocator _allocator;
 	T *_elements;
@@ -167,16 +176,20 @@ vector<T, Allocator>::~vector() {
 
 template<typename T, typename Allocator>
 T &vector<T, Allocator>::push(const T &element) {
-	_ensure_capacity(_size + 1);
-	T *pointer = new (&_elements[_size]) T(element);
+	T *pointer;
+	_ensure_capacity(_size + 1, [&] (T *array) {
+		pointer = new (&array[_size]) T(element);
+	});
 	_size++;
 	return *pointer;
 }
 
 template<typename T, typename Allocator>
 T &vector<T, Allocator>::push(T &&element) {
-	_ensure_capacity(_size + 1);
-	T *pointer = new (&_elements[_size]) T(std::move(element));
+	T *pointer;
+	_ensure_capacity(_size + 1, [&] (T *array) {
+		pointer = new (&array[_size]) T(std::move(element));
+	});
 	_size++;
 	return *pointer;
 }
@@ -184,8 +197,10 @@ T &vector<T, Allocator>::push(T &&element) {
 template<typename T, typename Allocator>
 template<typename... Args>
 T &vector<T, Allocator>::emplace_back(Args &&... args) {
-	_ensure_capacity(_size + 1);
-	T *pointer = new(&_elements[_size]) T(std::forward<Args>(args)...);
+	T *pointer;
+	_ensure_capacity(_size + 1, [&] (T *array) {
+		pointer = new(&array[_size]) T(std::forward<Args>(args)...);
+	});
 	_size++;
 	return *pointer;
 }
@@ -193,24 +208,29 @@ T &vector<T, Allocator>::emplace_back(Args &&... args) {
 template<typename T, typename Allocator>
 template<typename... Args>
 void vector<T, Allocator>::resize(size_t new_size, Args &&... args) {
-	_ensure_capacity(new_size);
 	if(new_size < _size) {
 		for(size_t i = new_size; i < _size; i++)
 			_elements[i].~T();
 	}else{
-		for(size_t i = _size; i < new_size; i++)
-			new (&_elements[i]) T(args...);
+		_ensure_capacity(new_size, [&] (T *array) {
+			for(size_t i = _size; i < new_size; i++)
+				new (&array[i]) T(args...);
+		});
 	}
 	_size = new_size;
 }
 
 template<typename T, typename Allocator>
-void vector<T, Allocator>::_ensure_capacity(size_t capacity) {
-	if(capacity <= _capacity)
+template<typename F>
+void vector<T, Allocator>::_ensure_capacity(size_t capacity, F construct) {
+	if(capacity <= _capacity) {
+		construct(_elements);
 		return;
+	}
 
 	size_t new_capacity = capacity * 2;
 	T *new_array = (T *)_allocator.allocate(sizeof(T) * new_capacity);
+	construct(new_array);
 	for(size_t i = 0; i < _size; i++)
 		new (&new_array[i]) T(std::move(_elements[i]));
 
